@@ -18,7 +18,8 @@ func init() {
 			return
 		}
 		fns := reachSamePkg(c, fn, 3)
-		inPlace := map[string]bool{"os.WriteFile": true, "os.Create": true, "os.OpenFile": true, "io/ioutil.WriteFile": true, "os.Truncate": true}
+		inPlace := map[string]bool{"os.WriteFile": true, "os.Create": true, "os.OpenFile": true, "io/ioutil.WriteFile": true, "os.Truncate": true,
+			"os.Remove": true, "os.RemoveAll": true, "os.Link": true, "os.Symlink": true}
 		n, renames := 0, 0
 		for _, f := range fns {
 			for _, call := range engine.Calls(f) {
@@ -28,14 +29,14 @@ func init() {
 					d := engine.Describe(call.Common().Args[0])
 					isDest := strings.HasSuffix(d, ".Path") || strings.Contains(d, ".Path") && !strings.Contains(d, "CreateTemp")
 					c.Check(!isDest, "C31.R1", engine.FuncID(f)+"/"+id, call.Pos(),
-						"%s(%s, …) writes the session file in place: a crash between truncation and the write leaves an empty or partial session", id, d)
+						"%s(%s, …) modifies or removes the session file in place: a crash right after it leaves an empty, partial or missing session", id, d)
 				}
 				if id == "os.Rename" {
 					renames++
 					n++
 					dst := engine.Describe(call.Common().Args[1])
 					src := call.Common().Args[0]
-					okDst := strings.Contains(dst, ".Path")
+					okDst := strings.Contains(dst, ".Path") && !strings.Contains(engine.Describe(src), ".Path")
 					// source is the name of a temp file created by os.CreateTemp; Write, Sync, Close on it dominate the rename with nil errors
 					tmp := engine.FindCallBack(src, "os.CreateTemp")
 					okSeq := len(tmp) == 1
